@@ -190,6 +190,71 @@ func c29Gen(g *Gen, tier string, w *bufio.Writer) {
 		}
 		emit(c29Line(nws[g.Intn(3)], ps, g.U64()%100000+1, g.Intn(300)))
 	}
+	// 5. the join's goroutine protocol: inputs around and above the channel capacity (10000), complete runs,
+	//    early returns (k-th output fails: LIMIT / error downstream) and failing sources
+	opt := func(n int) string {
+		if n < 0 {
+			return "-"
+		}
+		return strconv.Itoa(n)
+	}
+	joinLine := func(nw int, kind string, nL, nR, m, stop, errL, errR int) {
+		emit(fmt.Sprintf("join %d %s %d %d %d %s %s %s d%d", nw, kind, nL, nR, m, opt(stop), opt(errL), opt(errR), g.U64()%100000+1))
+	}
+	kinds := []string{"sj", "oj"}
+	sizes := []int{0, 1, 100, 9999, 10000, 10001, 10005, 25000}
+	joinLine(2, "sj", 0, 0, 0, -1, -1, -1)
+	joinLine(1, "oj", 1, 0, 0, -1, -1, -1)
+	joinLine(16, "sj", 12000, 11000, 50, -1, -1, -1)
+	joinLine(2, "sj", 30000, 20, 5, 3, -1, -1)
+	joinLine(2, "oj", 20, 25000, 5, 2, -1, -1)
+	joinLine(1, "sj", 10001, 0, 0, -1, -1, 0)
+	joinLine(16, "sj", 100, 30000, 5, -1, 50, -1)
+	nj := 8
+	if tier == "thorough" {
+		nj = 120
+	}
+	for i := 0; i < nj; i++ {
+		kind := kinds[g.Intn(2)]
+		nL, nR := sizes[g.Intn(len(sizes))], sizes[g.Intn(len(sizes))]
+		if g.Intn(2) == 0 {
+			nL = g.Intn(300)
+		}
+		m := g.Intn(40)
+		stop, errL, errR := -1, -1, -1
+		matches := m
+		if nL < matches {
+			matches = nL
+		}
+		if nR < matches {
+			matches = nR
+		}
+		switch g.Intn(4) {
+		case 0:
+			if matches > 0 {
+				stop = 1 + g.Intn(matches)
+			}
+		case 1:
+			errL = g.Intn(nL + 1)
+		case 2:
+			errR = g.Intn(nR + 1)
+		}
+		joinLine(nws[g.Intn(3)], kind, nL, nR, m, stop, errL, errR)
+	}
+	// 6. data-race SEARCH: whole queries through the race-detector build of the binary
+	nr := 8
+	if tier == "thorough" {
+		nr = 90
+	}
+	gmps := []int{1, 2, 4, 16}
+	for i := 0; i < nr; i++ {
+		qid := i % len(c29RaceQueries)
+		if i >= len(c29RaceQueries) {
+			qid = g.Intn(len(c29RaceQueries))
+		}
+		rows := []int{40, 200, 1000, 3000}[g.Intn(4)]
+		emit(fmt.Sprintf("race %d %d %d d%d x%d", gmps[g.Intn(4)], qid, rows, g.U64()%100000+1, c29RaceQueries[qid].exit))
+	}
 }
 
 // ---------------------------------------------------------------- parent: persistent children per GOMAXPROCS
@@ -219,7 +284,9 @@ func c29DriveAll(sc *bufio.Scanner, w *bufio.Writer) {
 	queues := map[string][]int{}
 	for i, toks := range lines {
 		key := "-"
-		if len(toks) >= 3 && toks[0] == "json" {
+		if len(toks) >= 3 && toks[0] == "race" {
+			key = "race/" + strconv.Itoa(i%4)
+		} else if len(toks) >= 3 && (toks[0] == "json" || toks[0] == "join") {
 			if len(queues[toks[1]+"/0"]) > len(queues[toks[1]+"/1"]) {
 				key = toks[1] + "/1"
 			} else {
@@ -279,10 +346,16 @@ func c29StartChild(nw int) (*c29Child, error) {
 
 // c29Drive: in the child, execute; (the parent goes through c29DriveAll / c29Dispatch)
 func c29Drive(toks []string) string {
-	if len(toks) < 3 || toks[0] != "json" {
+	if len(toks) >= 3 && toks[0] == "race" {
+		return c29RunRace(toks)
+	}
+	if len(toks) < 3 || (toks[0] != "json" && toks[0] != "join") {
 		return "bad-op"
 	}
 	if os.Getenv("VERIF_C29_CHILD") == "1" {
+		if toks[0] == "join" {
+			return c29RunJoin(toks)
+		}
 		return c29RunOp(toks)
 	}
 	var ch *c29Child
@@ -296,7 +369,10 @@ func c29Drive(toks []string) string {
 
 // c29Dispatch sends one op to the child *pch (started on demand with GOMAXPROCS = the op's worker count)
 func c29Dispatch(pch **c29Child, toks []string) string {
-	if len(toks) < 3 || toks[0] != "json" {
+	if len(toks) >= 3 && toks[0] == "race" {
+		return c29RunRace(toks)
+	}
+	if len(toks) < 3 || (toks[0] != "json" && toks[0] != "join") {
 		return "bad-op"
 	}
 	nw, err := strconv.Atoi(toks[1])
@@ -704,7 +780,9 @@ func c29AllBlocked() bool {
 		if i == 0 {
 			continue // the calling goroutine
 		}
-		if !strings.Contains(g, "datasources/json.") && !strings.Contains(g, "main.c29RunOp.func") {
+		if !strings.Contains(g, "datasources/json.") && !strings.Contains(g, "main.c29RunOp.func") &&
+			!strings.Contains(g, "main.c29RunJoin.func") && !strings.Contains(g, "main.(*c29Source).Run") &&
+			!strings.Contains(g, "execution/nodes.(*StreamJoin).Run") && !strings.Contains(g, "execution/nodes.(*OuterJoin).Run") {
 			continue
 		}
 		relevant++
